@@ -15,10 +15,6 @@ import (
 	"verif/harness/internal/crashfs"
 )
 
-// Active.Suicide does not remove the .index that a published-but-not-released seal left next to a
-// fraction replayed as active (SkipSortDocs only): reported to the lead, one stable fingerprint
-const findingLoneIndex = "finding:unsorted-lone-index-left"
-
 func has(sufs []string, s string) bool {
 	for _, x := range sufs {
 		if x == s {
@@ -209,10 +205,6 @@ func (d *driver) emitLoad(j *loadJob, sorted bool) {
 			}
 			after := j.obs.After[f]
 			obsC = append(obsC, fmt.Sprintf("mkobs %s %d%%N %d%%N %d%%N %s", lkindCoq(kind), st.Expected, st.OK, st.Wrong, coqKinds(after)))
-			if kind == "" && !sorted && has(after, ".index") && !has(after, ".docs") && !has(after, ".sdocs") &&
-				!has(after, ".docs.del") && !has(after, ".sdocs.del") && !has(after, ".index.del") {
-				class = findingLoneIndex
-			}
 		}
 	}
 	impl := "None"
@@ -320,8 +312,9 @@ func (d *driver) emitOps(h *history) {
 					ev, class = "EvSealedSuicide", "ops:delete-sealed"
 				} else {
 					ev, class = "EvActiveSuicide", "ops:delete-active"
-					if !h.Sorted && has(bf, ".index") && !has(bf, ".sdocs") {
-						class = findingLoneIndex
+					if has(bf, ".index") || has(bf, ".sdocs") {
+						// regression class of fixes 0dd016e / 30ce157: a fraction replayed after an interrupted seal is deleted while active
+						class = "ops:delete-active-after-interrupted-seal"
 					}
 				}
 			default:
@@ -440,7 +433,7 @@ func (d *driver) execHistory(h *history) bool {
 
 func (d *driver) run() {
 	quick := d.tier == "quick"
-	nSteps, nCont, rounds := 9, 9, 1
+	nSteps, nCont, rounds := 10, 18, 1
 	if !quick {
 		nSteps, nCont, rounds = 12, 40, 3
 	}
@@ -497,7 +490,13 @@ func (d *driver) run() {
 					continue
 				}
 				d.afterHistory(h2)
-				d.exploreCrashes(h2, "load:crash-state-2", h2.crashPoints())
+				cls := "load:crash-state-2"
+				if n < len(forced) {
+					// permanent regression class (fixes 0dd016e, 30ce157): every crash point of the first seal, restart,
+					// rotate, retention deletes the replayed fraction while it is still active
+					cls = "load:regress-interrupted-seal-then-delete"
+				}
+				d.exploreCrashes(h2, cls, h2.crashPoints())
 			}
 			d.sweep(h)
 			d.cacheCases(h)
@@ -620,9 +619,6 @@ func (d *driver) sweep(h *history) {
 			after := j.obs.After[name]
 			impl = fmt.Sprintf("(Some (mkobs %s %d%%N %d%%N %d%%N %s))", lkindCoq(kind), st.Expected, st.OK, st.Wrong, coqKinds(after))
 			implJ = map[string]any{"listed": kind, "docs": st, "files_after": after}
-			if kind == "" && !h.Sorted && has(after, ".index") && len(after) <= 2 && (len(after) == 1 || has(after, ".meta")) {
-				class = findingLoneIndex
-			}
 		}
 		term := fmt.Sprintf("CSweep %s %s %s %s", casefile.Bool(h.Sorted), casefile.Bool(j.hd), coqKinds(j.files), impl)
 		d.w.Add(term, class, len(j.files) > 0, map[string]any{"sort_docs": h.Sorted, "files": j.files, "has_documents": j.hd}, implJ)
